@@ -9,6 +9,8 @@ package main
 
 import (
 	"crypto/sha1"
+	"io"
+	"log"
 	"encoding/json"
 	"fmt"
 	"os"
@@ -209,6 +211,20 @@ func main() {
 		os.Exit(2)
 	}
 	id := os.Args[1]
+	if id == "__compile" {
+		// fresh-process compilation of one input (JSON {src, opts} on stdin): prints the digest
+		log.SetOutput(io.Discard)
+		var in struct {
+			Src  string `json:"src"`
+			Opts Opts   `json:"opts"`
+		}
+		if err := json.NewDecoder(os.Stdin).Decode(&in); err != nil {
+			fmt.Println("BADINPUT")
+			os.Exit(2)
+		}
+		fmt.Println(digestOf(Compile(in.Src, in.Opts)))
+		os.Exit(0)
+	}
 	c := &Ctx{ID: id, Tier: "quick", Seed: 1, Start: time.Now(), Workers: 16}
 	if t := os.Getenv("VERIF_TIER"); t == "thorough" || t == "quick" {
 		c.Tier = t
@@ -235,6 +251,7 @@ func main() {
 			c.Workers, _ = strconv.Atoi(os.Args[i])
 		}
 	}
+	log.SetOutput(io.Discard) // the compiler's warnings about fonts are not our output
 	fn, ok := registry[id]
 	if !ok {
 		fmt.Fprintf(os.Stderr, "unknown check %q\n", id)
